@@ -100,16 +100,21 @@ pub struct Mutation {
     pub obj_slot: u16,
     pub key: u8,
     pub value: AObj,
-    /// 0 = set key, 1 = remove key, 2 = replace whole object
+    /// 0 = set key, 1 = remove key, 2 = replace whole object, 3 = focused: a key the outline / table-of-contents code
+    /// reads, on an outline item, bound to a value of the kind it expects there (title strings with byte-order marks
+    /// and odd lengths, links to other outline items, destinations that resolve to a page)
     pub mode: u8,
+    pub aux: u16,
 }
+
+const OUTLINE_KEYS: &[&str] = &["Title", "Title", "Next", "Next", "First", "Dest", "A", "Prev", "Last", "Parent"];
 
 /// skeleton: a plausible document (catalog, two-level page tree, fonts, outline chain, name tree) whose
 /// entries are then overwritten by chaos values
 pub fn graph_strategy() -> BoxedStrategy<GraphSpec> {
-    let mutation = (any::<u16>(), 0u8..(KEYS.len() as u8), chaos_value(), prop_oneof![6 => Just(0u8), 1 => Just(1u8), 1 => Just(2u8)])
-        .prop_map(|(obj_slot, key, value, mode)| Mutation { obj_slot, key, value, mode });
-    (1usize..4, 0usize..4, vec(mutation, 0..12), vec((chaos_value(), any::<bool>()), 0..5), any::<u8>(), string_chaos())
+    let mutation = (any::<u16>(), 0u8..(KEYS.len() as u8), chaos_value(), prop_oneof![6 => Just(0u8), 1 => Just(1u8), 1 => Just(2u8), 3 => Just(3u8)], any::<u16>(), string_chaos())
+        .prop_map(|(obj_slot, key, value, mode, aux, text)| Mutation { obj_slot, key, value: if mode == 3 { AObj::Str(B(text), aux & 1 == 1) } else { value }, mode, aux });
+    (1usize..4, 0usize..6, vec(mutation, 0..12), vec((chaos_value(), any::<bool>()), 0..5), any::<u8>(), string_chaos())
         .prop_map(|(n_pages, n_outline, muts, extras, flags, content)| {
             let mut objs: Vec<AObj> = vec![];
             // 1 catalog, 2 pages root, 3 intermediate pages node, 4 resources, 5 font, 6 outlines, 7 names tree, 8 content stream, 9 ToUnicode stream
@@ -140,8 +145,7 @@ pub fn graph_strategy() -> BoxedStrategy<GraphSpec> {
             objs.push(AObj::dict(vec![("Type", AObj::name("Font")), ("Subtype", AObj::name("Type0")), ("Encoding", AObj::name("Identity-H")), ("ToUnicode", r(9))]));
             objs.push(AObj::dict(vec![("Type", AObj::name("Outlines")), ("First", r(outline0)), ("Last", r(outline0 + n_outline.saturating_sub(1) as u32)), ("Count", AObj::Int(n_outline as i64))]));
             objs.push(AObj::dict(vec![
-                ("Names", AObj::Array(vec![AObj::lit(b"dest1"), r(first_page), AObj::lit(b"dest2"), AObj::dict(vec![("D", AObj::Array(vec![r(first_page), AObj::name("Fit")]))])])),
-                ("Kids", AObj::Array(vec![r(7)])),
+                ("Names", AObj::Array(vec![AObj::lit(b"dest1"), AObj::Array(vec![r(first_page), AObj::name("Fit")]), AObj::lit(b"dest2"), AObj::dict(vec![("D", AObj::Array(vec![r(first_page + n_pages as u32 - 1), AObj::name("Fit")]))])])),
             ]));
             let mut img: ADict = vec![];
             set(&mut img, "Type", AObj::name("XObject"));
@@ -170,10 +174,11 @@ pub fn graph_strategy() -> BoxedStrategy<GraphSpec> {
                 if i + 1 < n_outline as u32 {
                     set(&mut d, "Next", r(outline0 + i + 1));
                 }
-                if i % 2 == 0 {
-                    set(&mut d, "A", AObj::dict(vec![("S", AObj::name("GoTo")), ("D", AObj::Array(vec![r(first_page), AObj::name("Fit")]))]));
-                } else {
-                    set(&mut d, "Dest", AObj::lit(b"dest1"));
+                match i % 4 {
+                    0 => set(&mut d, "A", AObj::dict(vec![("S", AObj::name("GoTo")), ("D", AObj::Array(vec![r(first_page), AObj::name("Fit")]))])),
+                    1 => set(&mut d, "Dest", AObj::lit(b"dest1")),
+                    2 => set(&mut d, "Dest", AObj::Array(vec![r(first_page + (i % n_pages as u32)), AObj::name("XYZ"), AObj::Int(0), AObj::Int(0), AObj::Null])),
+                    _ => set(&mut d, "Dest", AObj::name("dest2")),
                 }
                 objs.push(AObj::Dict(d));
             }
@@ -186,6 +191,31 @@ pub fn graph_strategy() -> BoxedStrategy<GraphSpec> {
                 let idx = (m.obj_slot as usize * n) >> 16;
                 let key = KEYS[m.key as usize % KEYS.len()];
                 match m.mode {
+                    3 => {
+                        if n_outline == 0 {
+                            continue;
+                        }
+                        let item = outline0 as usize - 1 + ((m.obj_slot as usize * n_outline) >> 16);
+                        let key = OUTLINE_KEYS[m.key as usize % OUTLINE_KEYS.len()];
+                        let other = r(outline0 + ((m.aux as usize * n_outline) >> 16) as u32);
+                        let value = match key {
+                            "Title" => m.value.clone(),
+                            "Next" | "First" | "Prev" | "Last" => other,
+                            "Parent" => if m.aux & 1 == 0 { r(6) } else { other },
+                            "Dest" => match m.aux % 3 {
+                                0 => AObj::Array(vec![r(first_page + (m.aux as u32 >> 2) % n_pages as u32), AObj::name("Fit")]),
+                                1 => AObj::lit(if m.aux & 4 == 0 { b"dest1" } else { b"dest2" }),
+                                _ => m.value.clone(),
+                            },
+                            _ => AObj::dict(vec![("S", AObj::name(if m.aux & 8 == 0 { "GoTo" } else { "GoToR" })), ("D", AObj::Array(vec![r(first_page), AObj::name("Fit")]))]),
+                        };
+                        if let AObj::Dict(d) = &mut objs[item] {
+                            if key == "Dest" {
+                                d.retain(|(k, _)| k.0 != b"A");
+                            }
+                            set(d, key, value);
+                        }
+                    }
                     2 => objs[idx] = m.value.clone(),
                     mode => {
                         if let AObj::Dict(d) | AObj::Stream(d, _) = &mut objs[idx] {
@@ -214,6 +244,80 @@ pub fn graph_strategy() -> BoxedStrategy<GraphSpec> {
                 trailer = vec![(B::from("Root"), AObj::Int(1))];
             }
             GraphSpec { objects, trailer }
+        })
+        .boxed()
+}
+
+/// Long chains (C13): a small valid skeleton plus `n` objects linked through ONE key that some walker follows, so
+/// that the depth a walker reaches is a generated quantity (the chaos graphs above have at most a few dozen objects).
+/// kind 0: /Parent chain above a page (resource inheritance), 1: nested /Pages nodes through /Kids, 2: outline siblings
+/// through /Next, 3: outline nesting through /First, 4: name-tree nesting through /Kids. `end`: 0 = ends properly,
+/// 1 = dangling, 2 = links back to the first chain node (cycle), 3 = links to itself.
+pub fn chain_strategy() -> BoxedStrategy<GraphSpec> {
+    (0u8..5, prop_oneof![3 => 1usize..50, 3 => 50usize..400, 2 => 400usize..3000], 0u8..4, any::<bool>())
+        .prop_map(|(kind, n, end, with_resources)| {
+            let first = 10u32;
+            let node = |i: usize| r(first + i as u32);
+            let last_link = |i: usize, proper: AObj| -> AObj {
+                if i + 1 < n {
+                    node(i + 1)
+                } else {
+                    match end {
+                        0 => proper,
+                        1 => r(9_000_000),
+                        2 => node(0),
+                        _ => node(i),
+                    }
+                }
+            };
+            let page = 5u32;
+            let mut objs: Vec<(u32, AObj)> = vec![];
+            objs.push((1, AObj::dict(vec![("Type", AObj::name("Catalog")), ("Pages", r(2)), ("Outlines", r(3)), ("Names", AObj::dict(vec![("Dests", r(4))]))])));
+            let root_kids = if kind == 1 { vec![node(0)] } else { vec![r(page)] };
+            let mut root = vec![("Type", AObj::name("Pages")), ("Kids", AObj::Array(root_kids)), ("Count", AObj::Int(1))];
+            if with_resources {
+                root.push(("Resources", AObj::dict(vec![("Font", AObj::dict(vec![]))])));
+            }
+            objs.push((2, AObj::dict(root)));
+            objs.push((3, AObj::dict(vec![("Type", AObj::name("Outlines")), ("First", if kind == 2 || kind == 3 { node(0) } else { r(6) }), ("Count", AObj::Int(1))])));
+            objs.push((4, if kind == 4 { AObj::dict(vec![("Kids", AObj::Array(vec![node(0)]))]) } else { AObj::dict(vec![("Names", AObj::Array(vec![AObj::lit(b"d"), AObj::Array(vec![r(page), AObj::name("Fit")])]))]) }));
+            let page_parent = match kind {
+                0 => node(0),
+                1 => node(n - 1),
+                _ => r(2),
+            };
+            objs.push((page, AObj::dict(vec![("Type", AObj::name("Page")), ("Parent", page_parent), ("Contents", r(7))])));
+            objs.push((6, AObj::dict(vec![("Title", AObj::lit(b"t")), ("Parent", r(3)), ("Dest", AObj::Array(vec![r(page), AObj::name("Fit")]))])));
+            objs.push((7, AObj::Stream(vec![], B(b"BT /F1 9 Tf (x) Tj ET".to_vec()))));
+            for i in 0..n {
+                let d = match kind {
+                    0 => AObj::dict(vec![("Type", AObj::name("Pages")), ("Parent", last_link(i, r(2)))]),
+                    1 => AObj::dict(vec![("Type", AObj::name("Pages")), ("Parent", if i == 0 { r(2) } else { node(i - 1) }), ("Count", AObj::Int(1)), ("Kids", AObj::Array(vec![last_link(i, r(page))]))]),
+                    2 => {
+                        let mut v = vec![("Title", AObj::lit(b"s")), ("Parent", r(3)), ("Dest", AObj::Array(vec![r(page), AObj::name("Fit")]))];
+                        if i + 1 < n || end != 0 {
+                            v.push(("Next", last_link(i, AObj::Null)));
+                        }
+                        AObj::dict(v)
+                    }
+                    3 => {
+                        let mut v = vec![("Title", AObj::lit(b"n")), ("Parent", if i == 0 { r(3) } else { node(i - 1) }), ("Dest", AObj::Array(vec![r(page), AObj::name("Fit")]))];
+                        if i + 1 < n || end != 0 {
+                            v.push(("First", last_link(i, AObj::Null)));
+                        }
+                        AObj::dict(v)
+                    }
+                    _ => {
+                        if i + 1 < n || end != 0 {
+                            AObj::dict(vec![("Kids", AObj::Array(vec![last_link(i, AObj::Null)]))])
+                        } else {
+                            AObj::dict(vec![("Names", AObj::Array(vec![AObj::lit(b"d"), AObj::Array(vec![r(page), AObj::name("Fit")])]))])
+                        }
+                    }
+                };
+                objs.push((first + i as u32, d));
+            }
+            GraphSpec { objects: objs.into_iter().map(|(n, o)| (n, 0u16, o)).collect(), trailer: vec![(B::from("Root"), r(1))] }
         })
         .boxed()
 }
